@@ -6,7 +6,7 @@ Tie:    harness/simdrv.c <-> Drivers/SimMain.lean on generated scenarios (profil
 """
 import simcheck
 
-PROFILES = ['resource', 'crowd', 'lifecycle', 'mixed']
+PROFILES = ['resource', 'crowd', 'lifecycle', 'mixed', 'coincide']
 
 
 def run(chk):
